@@ -18,7 +18,7 @@ RULE = ("postconditions on SegmentTensor.contains, PolygonTensor.contains and Tr
         "margin (contains every measure-zero position: on edges, at vertices, on edge extensions, level with a vertex), 3D embeddings in planes of "
         "many normals with queries on and off the plane, single Point and PointCollection APIs, PolygonCollection, segments incl. rays. "
         "Non-trivial: every judged (polygon, point) pair; distinct by digest."
-        " Also: polygons moved by a translation / integer affine map after they have been queried, figures scaled by 2^-5 ... 2^-11, point collections mixing points in the plane of a 3D polygon with points above and below them; integer coordinates of 60 ... 10^4 (pixel coordinates) in int64, int32, int16 and floating point representation; segments mapped 6-13 times by the same integer affine map (every image answers for its own end points, midpoint and neighbours).")
+        " Also: polygons moved by a translation / integer affine map after they have been queried, figures scaled by 2^-5 ... 2^-11, point collections mixing points in the plane of a 3D polygon with points above and below them; integer coordinates of 60 ... 10^4 (pixel coordinates) in int64, int32, int16 and floating point representation; segments mapped 6-13 times by the same integer affine map (every image answers for its own end points, midpoint and neighbours); polygon collections built from one point collection per vertex position against the polygons built one by one.")
 SHARDS = (8, 16)
 REQUIRED = ["segment.contains", "polygon.contains", "triangle.contains"]
 ASSUMPTIONS = ["exact judgement needs exactly representable coordinates; float queries are judged only when farther than 1e-6 from the boundary",
